@@ -1350,12 +1350,19 @@ theorem RemOK_stepBody (p : Params) (s : St) (h : RemOK m s.live) :
     RemOK m (stepBody m p s).live := by
   intro t ht hw
   rw [stepBody_tstate] at hw
-  have hpw : (preWorking m p s).tstate t ≠ .working :=
-    fun hh => hw (chkWorking_keeps_working m _ t hh)
+  have hpw : (preWorking m p s).tstate t ≠ .working := by
+    intro hh; apply hw
+    cases startGuard p s
+    · exact hh
+    · exact chkWorking_keeps_working m _ t hh
   rw [preWorking_tstate] at hpw
   rw [stepBody_live, perform_rem_of_not_working m _ _ _ t (by rw [compCheck_tstate]; exact hw)]
-  show 0 ≤ (chkWorking m (preWorking m p s)).rem t
-  rw [chkWorking_rem, preWorking_rem]
+  show 0 ≤ (chkWorkingIf (startGuard p s) m (preWorking m p s)).rem t
+  have hrem : (chkWorkingIf (startGuard p s) m (preWorking m p s)).rem = (preWorking m p s).rem := by
+    cases startGuard p s
+    · rfl
+    · exact chkWorking_rem m _
+  rw [hrem, preWorking_rem]
   exact h t ht hpw
 
 theorem updated_idem (hwf : WF m) (hng : GateOK m) (s : St) (h : RemOK m s.live) :
